@@ -316,10 +316,15 @@ func TestGenC09(t *testing.T) {
 				}
 			}
 			deliverAll()
+			// (the receive loop may give the application a moment - 100 ms - before it goes on without it)
+			for k := 0; k < 4; k++ {
+				s.advance(100 * time.Millisecond)
+				deliverAll()
+			}
 			t1 := time.Now()
 			sb1, _ := s.busy(1)
 			q.check(!sb1, "c09:blocked-with-free-window:acks-unread-while-application-not-receiving", func() string {
-				return fmt.Sprintf("n=%d: both applications send n+1 messages before they receive; every packet and every ACK is delivered at once, yet the server's Send #%d is still blocked (its first %d packets were acknowledged on the wire; %d packets wait in front of its receive loop); events %v", n, n+1, n, len(s.inb[1]), lastN(l.keep, 14))
+				return fmt.Sprintf("n=%d: both applications send n+1 messages before they receive; every packet and every ACK is delivered at once, yet 400 ms later the server's Send #%d is still blocked (its first %d packets were acknowledged on the wire; %d packets wait in front of its receive loop); events %v", n, n+1, n, len(s.inb[1]), lastN(l.keep, 14))
 			})
 			q.stat("send_before_receive_scenarios", 1)
 			// now the applications receive: everything arrives
